@@ -15,18 +15,20 @@ from harness import c02 as P
 import vlib
 
 LEVEL_TEXT = ('Lean 4 theorems, for all tilt lists, angles, samplings and OPDs: the folded Field.shift is the sum of the individual '
-              'displacements and invariant under permutation; a single angular tilt displaces by (+z*thx/du0*os rows, -z*thy/du1*os cols) '
-              '(per-axis pixel size); a shift s in the DFT kernel equals the phase ramp exp(2 pi i alpha x s) on the input, and for '
-              'alpha = dx*du/(lambda z os) that ramp is the OPD ramp thx*r*dx0 - thy*c*dx1; fit_tilt leaves opd + ramp(recorded)*mask '
-              'unchanged for ANY coefficients (piston never subtracted), per segment and over any history of updates and fits; if the '
-              'coefficients satisfy the normal equations the remaining OPD has zero least-squares tip/tilt and the same piston; a '
-              'first-order dispersive displacement lies on its trace at arc length |d(lambda)|. Partial: see note.')
-LEVEL_NOTE = ('Partial: np.linalg.lstsq returning a solution of the normal equations is a contract (checked numerically by the oracle); '
-              'higher-order DispersiveTilt (scipy leastsq/quad) is not modelled — oracle only; the sample-for-sample equality of the '
-              'propagated representations composes tilt_ramp_equiv with C02 propagateField_sample and is checked end-to-end by the oracle. '
+              'displacements and invariant under permutation; Tilt plane, Wavefront(tilt) and the fit_tilt record give the same shift; '
+              'Tilt(thx, thy) displaces by (+z·thx/du0·os rows, -z·thy/du1·os cols); at C/R a plane with the ramp thx·X·dx0 - thy·Y·dx1 in '
+              'its OPD and the same plane carrying the tilt as metadata (any split) give the same complex value at every output sample both '
+              'evaluate, for alpha = dx·du/(λ z os) (through C02 propagateField_sample); what fit_tilt subtracts is exactly the OPD ramp of '
+              'the Tilt it records, for ANY coefficients, per segment and over any history; if the coefficients solve the normal equations '
+              '(lstsq contract) and the Gram matrix is non-singular, every least-squares fit of the remaining OPD has zero tip/tilt and the '
+              'same piston; first-order dispersive displacement lies on its trace at arc length |d(λ)|. Tilt.__init__/shift, Field.shift units '
+              'and axes, ptt_vector rows, the subtracted rows/coefficients, the recorded indices and the tilt[n::size] stride are regenerated.')
+LEVEL_NOTE = ('Partial: np.linalg.lstsq returning a solution of the normal equations is a contract (re-solved independently by the oracle); '
+              'higher-order DispersiveTilt (scipy leastsq/quad) is oracle-only; list aliasing / reuse of wavefronts (Field.__mul__, '
+              'TiltInterface.multiply) is covered by correspondence + oracle (tilt lists are values in the model). '
               'Trusted: Lean kernel, generator coverage, NumPy einsum/lstsq as modelled.')
 TECHNIQUE = 'Lean 4 proof (induction over tilt lists / histories, ring, Real.sqrt) over hand model with differential correspondence at Float'
-GEN = ['Extent', 'Window', 'PropagateMeta']
+GEN = ['Extent', 'Window', 'PropagateMeta', 'TiltFit']
 OPS = ['C02', 'C04']
 RULE = ('cases: (shift) lists of 1..4 angular / first-order dispersive / higher-order dispersive elements, all orderings, per-axis du, os 1..4; '
         '(fit) planes 2..7 x 2..7 with 1..3 segments, per-axis pixelscale, OPD = ramp + random, second fit after an OPD update; '
@@ -34,11 +36,11 @@ RULE = ('cases: (shift) lists of 1..4 angular / first-order dispersive / higher-
         '(equiv) pupils with tilt 0.01 px .. beyond the output expressed as OPD ramp / Tilt plane / Wavefront(tilt) / fit_tilt / '
         'several elements in different orders, segmented apertures with per-segment tilts, non-square output pixels, os 1..3. '
         'distinct = (kind, shapes, element kinds, order, sampling class); non-trivial = everything but a single zero tilt')
-TRUSTED = ['np.linalg.lstsq returns a least-squares solution (contract; oracle re-solves the normal equations independently)',
-           'np.einsum / broadcasting as modelled in Model/Tilt.lean; propagate_dft as modelled for C02']
+TRUSTED = ['np.linalg.lstsq returns a solution of the normal equations of the masked basis (contract; hypothesis hN of fit_tilt_is_least_squares; the oracle re-solves them)',
+           'np.einsum / reshape / broadcasting as modelled in Model/Tilt.lean; propagate_dft as modelled for C02']
 UNPROVEN = ['higher-order DispersiveTilt trace/dispersion (scipy.optimize.leastsq, scipy.integrate.quad): oracle residual checks only',
             'lstsq solves the normal equations: contract, checked numerically',
-            'end-to-end sample equality of the propagated representations: composition of tilt_ramp_equiv with C02 (oracle-checked)']
+            'tilt-list sharing between products (aliasing) and Plane.copy in fit_tilt(inplace=False): correspondence + oracle']
 ASSUMPTIONS = ['binary masks, pairwise disjoint segments; least-squares uniqueness checked only when a segment has 3 non-collinear pixels',
                'generated tilt shifts keep a fractional part in [0.05,0.95] so that np.fix is insensitive to rounding']
 
@@ -355,12 +357,20 @@ def requests(c, io):
         if any(e['k'] == 'dh' for e in c['tilts']): return []
         return [{'op': 'c04.shift', 'tilts': [_tj(e) for e in c['tilts']], 'z': vlib.fbits(Z), 'wl': vlib.fbits(c['wl']), 'du': vlib.fl(c['du']), 'os': c['os']}]
     if c['kind'] == 'fit':
+        m_, n_ = c['shape']
+        def seg_t(opd, masks, rec):
+            out = []
+            for mk, t in zip(masks, rec):
+                mka = np.array(mk).reshape(m_, n_)
+                t0 = float(_lsq(c, np.array(opd).reshape(m_, n_), mka)[0]) if _mask_ok(mka) else 0.0
+                out.append({'mask': vlib.fl(mk), 't': vlib.fl([t0, t[0], t[1]])})
+            return out
         rq = [{'op': 'c04.fit', 'shape': c['shape'], 'px': vlib.fl(c['px']), 'opd': vlib.fl(c['opd']),
-               'segs': [{'mask': vlib.fl(mk), 't': vlib.fl(t)} for mk, t in zip(io['mask'], io['tilt1'])]}]
+               'segs': seg_t(c['opd'], io['mask'], io['tilt1'])}]
         if c['update'] is not None:
             k = c['nseg']
             rq.append({'op': 'c04.fit', 'shape': c['shape'], 'px': vlib.fl(c['px']), 'opd': vlib.fl(io['opd1u']),
-                       'segs': [{'mask': vlib.fl(mk), 't': vlib.fl(t)} for mk, t in zip(io['mask'], io['tilt2'][k:])]})
+                       'segs': seg_t(io['opd1u'], io['mask'], io['tilt2'][k:])})
         return rq
     if c['kind'] == 'reuse':
         if c['base_kind'] == 'fit' or not io['shift0']: return []
@@ -397,6 +407,8 @@ def compare(c, io, mo):
     if c['kind'] == 'fit':
         sc = max(abs(v) for v in c['opd']) + 1e-12
         if not _close(io['opd1'], vlib.unfl(mo[0]['opd']), sc, 1e-10): return 'opd after fit_tilt differs from the model (given the recorded coefficients)'
+        for k, (rec, mrec) in enumerate(zip(io['tilt1'], mo[0]['recorded'])):
+            if list(rec) != vlib.unfl(mrec): return f"segment {k}: recorded Tilt(x, y) = {rec}, model records {vlib.unfl(mrec)} for the same coefficients"
         if c['update'] is not None:
             if len(io['tilt2']) != 2 * c['nseg']: return f"{len(io['tilt2'])} tilts recorded after the second fit, expected {2 * c['nseg']}"
             if io['tilt2'][:c['nseg']] != io['tilt1']: return 'first recorded tilts changed by the second fit'
